@@ -120,7 +120,7 @@ impl Property for C06 {
          -3s..-5ms, -1ms..+1ms, +5ms..+3s, +1h,+1d,+10y, uniform within a day}; T is the wall clock (hook off) or an injected instant anywhere \
          in 1970..9998; the document's expires text is re-spelled as the same instant, either after signing (same whole second as signed, so the \
          signatures stay valid) or before the signer parses and signs it with the library, in a random UTC offset (-23:59..+23:59, Z, +00:00, -00:00), with 0-9 fractional digits, optionally \
-         lower-case t/z. Oracle: clock read before (t0) and after (t1) the call; expiry < t0 => result must be Err; expiry in [t0,t1] => \
+         lower-case t/z. History: the same layout, keys and link directory are verified once beforehand with the clock hook set five seconds before the expiry (verdict not judged). Oracle: clock read before (t0) and after (t1) the call; expiry < t0 => result must be Err; expiry in [t0,t1] => \
          straddled, skipped; expiry > t1 => no requirement (rejections counted). Non-trivial: expiry < t0 (or within 3 s after t1) and the \
          control with far-future expiry verifies Ok; distinct by (delta, clock mode, spelling, inner/outer, layout shape)."
             .into()
@@ -219,6 +219,14 @@ impl Property for C06 {
             o.class("respelled-layout-rejected-by-parser");
             let _ = std::fs::remove_dir_all(&dir);
             return o;
+        }
+        // history: the very same layout, keys and link directory were verified once before, at an
+        // instant five seconds before the expiry (verdict not judged)
+        if let Some(early) = chrono::DateTime::from_timestamp_millis(expiry_ms - 5000) {
+            in_toto::verif_hooks::set_clock(Some(early));
+            let _ = run_verify(&info, &own_ids(&spec.owners), &dir, None);
+            in_toto::verif_hooks::set_clock(None);
+            o.class("verified-before-while-unexpired");
         }
         in_toto::verif_hooks::set_clock(spec.clock_ms.map(|ms| chrono::DateTime::from_timestamp_millis(ms).expect("instant")));
         let t0 = spec.clock_ms.unwrap_or_else(now_ms);
